@@ -130,7 +130,7 @@ func (t *Trie) getWithPath(curr Node, path []byte, strict bool) (Node, Node, []b
 				return nil, nil, nil, err
 			}
 			n.next = r
-			return curr, res, append(n.key, prefix...), err
+			return curr, res, slices.Concat(n.key, prefix), err // never write into the node's key
 		}
 		if !strict && bytes.HasPrefix(n.key, path) {
 			// path is shorter than prefix, stop seeking
